@@ -125,10 +125,10 @@ Section Ext.
     - apply default_sem_ext; assumption.
   Qed.
 
-  Lemma layered_sem_ext : forall w s s' i i' self self', oeq s s' -> oeq i i' -> ceq self self' ->
-    ceq (layered_sem tb w s i self) (layered_sem tb' w s' i' self').
+  Lemma layered_sem_ext : forall w fl s s' i i' self self', oeq s s' -> oeq i i' -> ceq self self' ->
+    ceq (layered_sem tb w fl s i self) (layered_sem tb' w fl s' i' self').
   Proof.
-    intros w s s' i i' f f' [Hs Hsn] [Hi Hin] Hf m a. unfold layered_sem. destruct E as [Er _]. rewrite Er.
+    intros w fl s s' i i' f f' [Hs Hsn] [Hi Hin] Hf m a. unfold layered_sem. destruct E as [Er _]. rewrite Er.
     destruct (row tb' w m); try reflexivity.
     - apply Hi.
     - apply default_sem_ext; assumption.
